@@ -57,6 +57,14 @@ CLAIMED["C13"] = dict(category="model_checking",
          "on one reused authorizer and each round's verdict and query results must be those of a fresh authorizer (the model's values).",
     design="6/C13", technique="TLA+ lifecycle state machine + TLC invariant ResetClean; spec->code replay of all round histories",
     note=AUTHZ_NOTE)
+CLAIMED["C11"] = dict(category="model_checking",
+    text="GoRoutines.tla models the caller / evaluation goroutine / consumer / producer / context-timer protocol over unbuffered channels; "
+         "TLC checks NoStranded, NoFalseSuccess, RightSentinel and liveness (CallerReturns, <>[]AllExited under weak fairness) for all "
+         "scenarios with the timer firing at any step, and refutes the pinned tree's protocol in three negative models. Every scenario "
+         "class is executed on the real engine through all four entry points; outcome sentinel, return time and the goroutine profile "
+         "after return are compared. DatalogRun.tla's limit contract is validated on the real engine by TLC trace validation.",
+    design="6/C11", technique="TLA+ model of the goroutine/channel protocol, TLC safety+liveness; spec->code replay of every scenario with goroutine-profile observation",
+    note="Trusted: TLC; runtime.Stack as observation of blocked goroutines; timer scenarios depend on real scheduling (either timeout or nominal outcome accepted).")
 CLAIMED["C18"] = dict(category="model_checking",
     text="Lifecycle.tla models SerializePolicies/LoadPolicies; TLC checks SnapshotEquiv and SaveRefusedIffEvaluated over all histories "
          "(3x3 tokens x 24 contents x evaluated/unevaluated) and exports them; replay saves on the real authorizer, loads into a fresh one "
